@@ -380,3 +380,14 @@ def run(ctx):
     # state must carry the augmented state as it is -- its extra channel holds the integrand at the hand-over time
     from . import c13
     ctx.guard(c13.r13_2)
+
+
+_run_before_r12_4 = run
+
+
+def run(ctx):
+    _run_before_r12_4(ctx)
+    # the running log-ratio is a state channel: between two grid states it is reported by linear interpolation, which is what
+    # makes it additive over output intervals and exactly 1/2 |c|^2 (t - s) for a constant integrand (rule of C12)
+    from . import c12
+    ctx.guard(c12.r12_4)
